@@ -62,3 +62,172 @@ def callee_of(term):
     if r and r != "=":
         return r
     return term["func"].get("fn")
+
+
+# ---- symbolic expansion of temporaries -----------------------------------------------------------------------
+
+class Body:
+    """Indexes of one MIR body: definitions of locals, predecessors, dominance."""
+
+    def __init__(self, f, name):
+        self.f = f
+        self.name = name
+        self.m = f.fns[name]["mir"]
+        self.blocks = self.m["blocks"]
+        self.locals = self.m["locals"]
+        self.argc = self.m["argc"]
+        self.defs = {}
+        for bi, b in enumerate(self.blocks):
+            if b.get("cleanup"):
+                continue
+            for si, s in enumerate(b["stmts"]):
+                if s["k"] == "assign" and not s["place"].get("p"):
+                    self.defs.setdefault(s["place"]["l"], []).append(("stmt", bi, si, s["rv"]))
+            t = b["term"]
+            if t["k"] == "call" and not t["dest"].get("p"):
+                self.defs.setdefault(t["dest"]["l"], []).append(("call", bi, None, t))
+        self.preds = {i: [] for i in range(len(self.blocks))}
+        for i, b in enumerate(self.blocks):
+            if b.get("cleanup"):
+                continue
+            for s in self.succs(i):
+                self.preds[s].append(i)
+        self.idom = self.m["idom"]
+
+    def succs(self, i):
+        t = self.blocks[i]["term"]
+        k = t["k"]
+        if k == "goto":
+            return [t["target"]]
+        if k == "switch":
+            return [x[1] for x in t["targets"]] + [t["otherwise"]]
+        if k in ("call", "drop", "assert"):
+            return [t["target"]] if t.get("target") is not None else []
+        return []
+
+    def dominates(self, a, b):
+        """block a dominates block b"""
+        seen = 0
+        while b is not None and seen < 10000:
+            if a == b:
+                return True
+            nb = self.idom[b]
+            if nb == b:
+                return False
+            b = nb
+            seen += 1
+        return False
+
+    def local_name(self, l):
+        return self.locals[l].get("name")
+
+    def local_ty(self, l):
+        return self.f.ty(self.locals[l]["ty"])
+
+    def is_temp(self, l):
+        return l > self.argc and self.locals[l].get("name") is None
+
+    def dest_place(self, place):
+        """expansion of a place that is being written: the base local is expanded only when written through (deref)"""
+        proj = place.get("p") or []
+        if proj and proj[0] == "deref":
+            return self.expand_place(place)
+        return self.expand_place(place, no_base=True)
+
+    def expand_place(self, place, depth=0, no_base=False):
+        l = place["l"]
+        proj = place.get("p") or []
+        base = None
+        if not no_base and self.is_temp(l) and len(self.defs.get(l, [])) == 1 and depth < 40:
+            d = self.defs[l][0]
+            base = self.expand_def(d, depth + 1)
+        else:
+            nm = self.local_name(l)
+            if l == 0:
+                nm = "<ret>"
+            base = ("var", nm if nm else "_%d" % l, l)
+        for p in proj:
+            if p == "deref":
+                if base[0] == "ref":
+                    base = base[2]
+                else:
+                    base = ("deref", base)
+            elif isinstance(p, dict) and "f" in p:
+                base = ("field", base, p["name"], p.get("adt"))
+            elif isinstance(p, dict) and "downcast" in p:
+                base = ("downcast", base, p.get("vname"))
+            else:
+                base = ("proj", base, str(p))
+        return base
+
+    def expand_operand(self, op, depth=0):
+        if op["k"] == "const":
+            if "fn" in op:
+                return ("fn", op["fn"])
+            if "v" in op:
+                return ("const", op["v"])
+            return ("const", op.get("text"))
+        if op["k"] in ("copy", "move"):
+            return self.expand_place(op["place"], depth)
+        return ("unknown",)
+
+    def expand_def(self, d, depth=0):
+        kind, bi, si, x = d
+        if kind == "call":
+            return ("call", callee_of(x), tuple(self.expand_operand(a, depth) for a in x["args"]), bi)
+        rv = x
+        k = rv["k"]
+        if k == "use":
+            return self.expand_operand(rv["op"], depth)
+        if k == "ref":
+            return ("ref", bool(rv.get("mut")), self.expand_place(rv["place"], depth))
+        if k == "bin":
+            return ("bin", rv["op"], self.expand_operand(rv["a"], depth), self.expand_operand(rv["b"], depth))
+        if k == "un":
+            return ("un", rv["op"], self.expand_operand(rv["a"], depth))
+        if k == "cast":
+            return ("cast", rv["kind"], self.expand_operand(rv["op"], depth), rv.get("to"))
+        if k == "discr":
+            return ("discr", self.expand_place(rv["place"], depth))
+        if k == "agg":
+            return ("agg", rv.get("agg"), rv.get("adt"), rv.get("variant"), tuple(rv.get("fields") or ()),
+                    tuple(self.expand_operand(o, depth) for o in rv["ops"]))
+        return ("other", k)
+
+
+def strip_refs(e):
+    while isinstance(e, tuple) and e and e[0] in ("ref", "deref"):
+        e = e[2] if e[0] == "ref" else e[1]
+    return e
+
+
+def show(e):
+    """compact text of an expanded expression"""
+    if not isinstance(e, tuple):
+        return str(e)
+    k = e[0]
+    if k == "var":
+        return e[1]
+    if k == "field":
+        return "%s.%s" % (show(e[1]), e[2])
+    if k == "ref":
+        return ("&mut " if e[1] else "&") + show(e[2])
+    if k == "deref":
+        return "*" + show(e[1])
+    if k == "call":
+        return "%s(%s)" % (e[1].rsplit("::", 1)[-1], ", ".join(show(a) for a in e[2]))
+    if k == "bin":
+        return "(%s %s %s)" % (show(e[2]), e[1], show(e[3]))
+    if k == "const":
+        return repr(e[1])
+    if k == "agg":
+        return "%s::%s{%s}" % ((e[2] or e[1] or "").rsplit("::", 1)[-1], e[3], ", ".join(show(a) for a in e[5]))
+    if k == "downcast":
+        return "%s as %s" % (show(e[1]), e[2])
+    if k == "cast":
+        return "cast(%s)" % show(e[2])
+    if k == "un":
+        return "%s(%s)" % (e[1], show(e[2]))
+    if k == "discr":
+        return "discr(%s)" % show(e[1])
+    return str(e)
